@@ -1,0 +1,82 @@
+//go:build verif
+
+package decorator
+
+import (
+	"go/ast"
+	"go/token"
+
+	"github.com/dave/dst"
+)
+
+// Lemma harnesses for the verification machinery in /verif (govc). They are never called and
+// exist only under the build tag verif. Each is a short call sequence that is verified
+// modularly, i.e. against the contracts of the callees, not their bodies.
+
+//@ func (r *FileRestorer) verifLemmaSiblingSpacing
+//@ requires inv: r.inv()
+//@ requires spaces: 0 <= after && after <= 2 && 0 <= before && before <= 2
+//@ requires ordinary: !isBad(first)
+//@ let pending := r.cursor == r.cursorAtNewLine ? 1 : 0
+//@ ensures blank_line_iff_empty: (pending + len(r.lines) - old(len(r.lines)) >= 2) == (after == dst.EmptyLine || before == dst.EmptyLine)
+//@ ensures no_break_iff_none: (pending + len(r.lines) - old(len(r.lines)) == 0) == (after == dst.None && before == dst.None && pending == 0)
+//@ ensures never_shrinks: len(r.lines) >= old(len(r.lines))
+//@ ensures inv: r.inv()
+
+func (r *FileRestorer) verifLemmaSiblingSpacing(first, second dst.Node, after, before dst.SpaceType) {
+	r.applySpace(first, "After", after)
+	r.applySpace(second, "Before", before)
+}
+
+//@ func (r *FileRestorer) verifLemmaBadNodeAfter
+//@ requires inv: r.inv()
+//@ requires bad: isBad(first)
+//@ let pending := r.cursor == r.cursorAtNewLine ? 1 : 0
+//@ ensures always_blank_line: pending + len(r.lines) - old(len(r.lines)) == 2
+
+func (r *FileRestorer) verifLemmaBadNodeAfter(first dst.Node, after dst.SpaceType) {
+	r.applySpace(first, "After", after)
+}
+
+//@ func (r *FileRestorer) verifLemmaCommentThenSpace
+//@ requires inv: r.inv()
+//@ requires space: 0 <= space && space <= 2
+//@ requires ends_in_break: len(decs) > 0 && isBreak(decs[len(decs)-1]) && !isFileStart(out, name)
+//@ ensures own_break_not_doubled: result == max(0, nl(space) - 1)
+
+func (r *FileRestorer) verifLemmaCommentThenSpace(out ast.Node, name string, decs dst.Decorations, end bool, next dst.Node, space dst.SpaceType) int {
+	r.applyDecorations(out, name, decs, end)
+	n := len(r.lines)
+	r.applySpace(next, "Before", space)
+	return len(r.lines) - n
+}
+
+//@ func (r *FileRestorer) verifLemmaAfterOpeningToken
+//@ requires inv: r.inv()
+//@ requires space: 0 <= before && before <= 2
+//@ requires token: tokenLen > 0
+//@ ensures first_before_decides: result == nl(before)
+
+func (r *FileRestorer) verifLemmaAfterOpeningToken(first dst.Node, before dst.SpaceType, tokenLen int) int {
+	r.cursor += token.Pos(tokenLen) // as the generated code does for an opening token such as "{" or "("
+	n := len(r.lines)
+	r.applySpace(first, "Before", before)
+	return len(r.lines) - n
+}
+
+//@ func (r *FileRestorer) verifLemmaBeforeClosingToken
+//@ requires inv: r.inv()
+//@ requires space: 0 <= after && after <= 2
+//@ requires ordinary: !isBad(last)
+//@ requires token: tokenLen > 0
+//@ let pending := r.cursor == r.cursorAtNewLine ? 1 : 0
+//@ ensures last_after_decides: pending + result == max(pending, nl(after))
+//@ ensures inv: r.inv()
+
+func (r *FileRestorer) verifLemmaBeforeClosingToken(last dst.Node, after dst.SpaceType, tokenLen int) int {
+	n := len(r.lines)
+	r.applySpace(last, "After", after)
+	k := len(r.lines) - n
+	r.cursor += token.Pos(tokenLen) // the closing token
+	return k
+}
